@@ -377,6 +377,20 @@ def _jsonable(x):
     return x
 
 
+def unit_dialect_spellings(a):
+    """a dialect code is known only exactly as listed: other capitalisation, underscore for hyphen, a bare region ... are reported as not supported"""
+    from vlib.refs import DIALECTS
+    stats = Stats()
+    cases = []
+    for d in sorted(DIALECTS):
+        for v in sorted({d.lower(), d.upper(), d.swapcase(), d.title(), d.replace("-", "_"), d.replace("-", ""), d.split("-")[-1], d + "-x"}):
+            if v and v not in DIALECTS:
+                cases.append({"sub": "text", "text": "#language: %s\n%s: f\n" % (v, DIALECTS[d]["feature"][0]), "label": "dialect-code-spelling"})
+                cases.append({"sub": "text", "text": "  # language: %s\n@t\n" % v, "label": "dialect-code-spelling"})
+    sweep(stats, cases, check_text)
+    return stats
+
+
 def unit_modes(a):
     stats = Stats()
     sweep(stats, [{"sub": "modes", "name": "-OO", "flags": ["-OO"]}, {"sub": "modes", "name": "-O", "flags": ["-O"]},
@@ -408,6 +422,7 @@ def run(ctx):
     ctx.extra["exhaustive_part"] = ("42 parser states x 13 line kinds (+ end of file, with and without final newline) as real English text; 42 expected lists vs siblings; all sequences of "
                                    "<= %d of %d fault/structure building blocks (ragged table, tag with blanks, garbage, unknown language, open doc string, ...) after a scenario step, plus a 1/%d sample of length %d" % (
                                        3 if q else 4, len(BLOCKS), 2 if q else 3, 4 if q else 5))
+    ctx.units("dialect-code-spellings", unit_dialect_spellings, [{}])
     ctx.units("interpreter-modes", unit_modes, [{}])
     ctx.rule = ("every document is run through the real parser (collecting and stop mode) and the stream API, and through the table-driven reference parser "
                 "(sibling tables + reference lexer); the ordered error lists must be equal in (line, column, message); independent invariants: message starts "
